@@ -141,8 +141,12 @@ func (mb *Buffer) ReadFrom(r io.Reader) (int64, error) {
 
 // WriteTo implements io.WriterTo.
 func (mb *Buffer) WriteTo(w io.Writer) (n int64, err error) {
-	if n, err = mb.ringBuffer.WriteTo(w); err != nil {
-		return
+	// An empty ring-buffer reports ErrIsEmpty, which must not keep
+	// the data in the list-buffer from being written.
+	if !mb.ringBuffer.IsEmpty() {
+		if n, err = mb.ringBuffer.WriteTo(w); err != nil {
+			return
+		}
 	}
 	var m int64
 	m, err = mb.listBuffer.WriteTo(w)
